@@ -36,7 +36,7 @@ def run_job(kind, key):
     w, I, cs = setup()
     if kind == 'contract':
         qual, case = key
-        c = [x for x in cs if x.qualname == qual][0]
+        c = [x for x in cs if getattr(x, 'role', x.qualname) == qual][0]
         recs, npaths = verify_contract(I, c, PROP, only_case=case)
         for r in recs:
             r['witness'] = dict(function=c.name)
